@@ -163,6 +163,13 @@ func buildWorld() {
 		{Type: "ssh-ed25519-x", Args: []string{"A", "B"}, Body: make([]byte, 47)}}}}
 	world["U3"] = &Party{Name: "U3", Kind: 'U', Recipient: &Unknown{Stanzas: []*age.Stanza{
 		{Type: "!", Args: []string{"~", "}"}, Body: make([]byte, 49)}}}}
+	// UB1..UB3: somebody else's stanzas that carry a NATIVE type name but not
+	// its shape (no arguments, no body): an identity that has found its own
+	// stanza in front of one never gets to it
+	for i, t := range []string{"ssh-ed25519", "ssh-rsa", "X25519"} {
+		name := fmt.Sprintf("UB%d", i+1)
+		world[name] = &Party{Name: name, Kind: 'U', Recipient: &Unknown{Stanzas: []*age.Stanza{{Type: t}}}}
+	}
 	// A1..A3: third-party recipients that append a key id of 16, 4 and 1 bytes
 	// to the file key slice they are handed (kind U: nobody opens their stanza)
 	for i, n := range []int{16, 4, 1} {
@@ -191,7 +198,7 @@ func buildWorld() {
 		{Type: "long-args", Args: []string{string(long), "tail"}, Body: make([]byte, 100)}}}}
 }
 
-// P returns the named party: X1..X4, E1..E3, EZ1, EZ2, EC1, EC2, PE1, PR1, R1..R8, RN1, A1..A3, G1, G2, S1, S2, U0..U4, and
+// P returns the named party: UB1..UB3, X1..X4, E1..E3, EZ1, EZ2, EC1, EC2, PE1, PR1, R1..R8, RN1, A1..A3, G1, G2, S1, S2, U0..U4, and
 // XN<anything>: further native parties made on demand (for very long lists).
 func P(name string) *Party {
 	worldOnce.Do(buildWorld)
